@@ -575,13 +575,13 @@ func stressRound(cfg StressCfg) *fail {
 	// A recovered panic inside spawn leaves the group's read lock held, which wedges every later Stop and
 	// registration: the waits below are bounded (10 s of real time) only to get out of such a round; a
 	// round that does not finish is reported as a broken correspondence unless a violation was recorded.
-	hung := !waitBounded(&stopDone, 10*time.Second)
+	hung := !waitBounded(&stopDone, hangBound)
 	// the doers keep registering for a moment after the barrier ("none ever starts again")
 	for i := 0; i < 8; i++ {
 		runtime.Gosched()
 	}
 	stop.Store(true)
-	hung = !waitBounded(&doersDone, 10*time.Second) || hung
+	hung = !waitBounded(&doersDone, hangBound) || hung
 	// registrations made strictly after the barrier, from this goroutine
 	if !hung {
 		func() {
@@ -616,7 +616,7 @@ func stressRound(cfg StressCfg) *fail {
 		return &fail{"barrier-stress-panic", params, fmt.Sprintf("real threads: a Group call panicked: %s", m)}
 	}
 	if hung {
-		return &fail{"stress-round-hangs", params, "real threads: StopAndWait / a registration did not return within 10 s of real time although every f returns at once"}
+		return &fail{"stress-round-hangs", params, "real threads: StopAndWait / a registration did not return within 120 s of real time although every f returns at once"}
 	}
 	return nil
 }
@@ -970,3 +970,9 @@ func TestVerif(t *testing.T) {
 		}
 	}
 }
+
+// hangBound is the real-time bound after which a real-threads round is given up as hung. It is only a
+// backstop against a livelocked or wedged library (reported as a broken correspondence tie, never as a
+// property violation) and is deliberately generous: on a heavily loaded machine a healthy round has been
+// seen to take longer than 10 s.
+const hangBound = 120 * time.Second
